@@ -138,6 +138,29 @@ struct Dumper {
       if (A.hasByValAttr()) os << ",\"byval\":" << DL.getTypeAllocSize(A.getParamByValType());
       os << "}";
     }
+    os << "],\"direct\":[";
+    {
+      // subprograms inlined directly into this function (outermost inlinedAt level): the
+      // functions the wrapper body calls; used to report file:line of the analysed construct
+      std::set<std::string> seen; bool fd = true;
+      for (auto &BB : F) for (auto &I : BB) {
+        const DebugLoc &dl = I.getDebugLoc();
+        if (!dl) continue;
+        const DILocation *loc = dl.get();
+        const DILocation *prev = nullptr;
+        while (loc->getInlinedAt()) { prev = loc; loc = loc->getInlinedAt(); }
+        if (!prev) continue;
+        auto *ls = dyn_cast_or_null<DILocalScope>(prev->getScope());
+        if (!ls) continue;
+        auto *sp = ls->getSubprogram();
+        if (!sp) continue;
+        std::string key = (sp->getFilename() + ":" + Twine(sp->getLine()) + ":" + sp->getName()).str();
+        if (!seen.insert(key).second) continue;
+        if (!fd) os << ",";
+        fd = false;
+        os << "{\"name\":\"" << jesc(sp->getName()) << "\",\"file\":\"" << jesc(sp->getFilename()) << "\",\"line\":" << sp->getLine() << "}";
+      }
+    }
     os << "],\"blocks\":[";
     bool firstb = true;
     for (auto &BB : F) {
